@@ -212,6 +212,17 @@ class Builder(object):
             else ToastCoordinateSystem.ASTRONOMICAL
         )
         coordsys = kwargs.pop("coordsys", coordsys)
+
+        # The tile format belongs to the pyramid: the imageset's file type and
+        # URL were derived from it and the cascade reads the tiles back in it.
+        format = kwargs.get("format")
+        if format is not None and format != self.pio.get_default_format():
+            raise ValueError(
+                "cannot sample {!r} tiles into a pyramid whose tile format is {!r}".format(
+                    format, self.pio.get_default_format()
+                )
+            )
+
         if "tile_filter" in kwargs:
             sample_layer_filtered(
                 pio=self.pio, sampler=sampler, depth=depth, coordsys=coordsys, **kwargs
